@@ -8,7 +8,7 @@ def check(tier, seed):
     return G.generic_check(PID, "exploration", tier, seed, coq=False,
         rule='generated game collections (shared openings, duplicate games, transpositions, games cut by an illegal move) rendered as Simple (separated and unseparated), SAN and PGN (tags, comments, NAGs, nested variations, wrapped lines, all result markers); real books built with GOMAXPROCS 1, 2 and 16 for each format and compared with the expected positions and visit counts computed by replaying the games; every offered move legal, leading to the linked entry, offered once; a case = one book build',
         streams=[dict(name='book_monitor', kind="monitor", shards=lambda t: 2 if t == "quick" else 8,
-                      args=lambda t, s, sh, path: ['c19-monitor', 4 if q else 60, s * 1000 + sh])])
+                      args=lambda t, s, sh, path: ['c19-monitor', 4 if t == "quick" else 60, s * 1000 + sh])])
 
 
 def replay(path):
